@@ -210,7 +210,9 @@ class Ctx:
     def known_findings(self):
         if self._known is None:
             ks = []
-            paths = [os.path.join(VERIF, "known_findings.json")] + sorted(glob.glob(os.path.join(VERIF, "known", "*.json")))
+            # the per-family files are the working copies (bin/mergeknown folds them into
+            # known_findings.json): they take precedence over a possibly stale merged entry
+            paths = sorted(glob.glob(os.path.join(VERIF, "known", "*.json"))) + [os.path.join(VERIF, "known_findings.json")]
             seen = set()
             for pth in paths:
                 try:
